@@ -50,6 +50,9 @@ func (it *Iterator) M__next__() (res Object, err error) {
 	}
 	if err != nil {
 		if IsException(IndexError, err) {
+			// Stay exhausted even if the sequence grows later
+			it.Seq = Tuple(nil)
+			it.Pos = 0
 			return nil, StopIteration
 		}
 		return nil, err
